@@ -722,6 +722,7 @@ int cvcMain(int argc, char** argv)
 }
 
 /* =========================================================================== bpki containers */
+static const octet* g_bpki_orig = 0; static size_t g_bpki_orig_len = 0;
 static void bpkiLine(const char* op, const char* kind, const octet* key, size_t klen, const octet* pwd, size_t plen,
 	const octet* salt, size_t iter, const octet* epki, size_t elen, err_t rc, const octet* out, size_t olen, const char* cls, long pos, int mask, int full)
 {
@@ -732,7 +733,9 @@ static void bpkiLine(const char* op, const char* kind, const octet* key, size_t 
 	   definition by C01); lines with full = true are recomputed from the password by TLC */
 	if (iter >= 1 && iter <= 100000 && beltPBKDF2(dk, pwd, plen, iter, salt, 8) == ERR_OK) jOct("dk", dk, 32); else jOct("dk", 0, 0);
 	jBool("full", full); jInt("pos", pos); jInt("mask", mask);
-	jOct("epki", epki, elen); jStr("rc", errName(rc)); jOct("out", out, olen); jEnd();
+	jOct("epki", epki, elen);
+	if (strcmp(cls, "altered") == 0) jOct("orig", g_bpki_orig, g_bpki_orig_len);      /* the container as it was produced */
+	jStr("rc", errName(rc)); jOct("out", out, olen); jEnd();
 }
 typedef err_t (*wrap_f)(octet*, size_t*, const octet*, size_t, const octet*, size_t, const octet*, size_t);
 typedef err_t (*unwrap_f)(octet*, size_t*, const octet*, size_t, const octet*, size_t);
@@ -742,16 +745,19 @@ int bpkiMain(int argc, char** argv)
 	int thorough = argc > 2 && strcmp(argv[2], "thorough") == 0;
 	int small = argc > 2 && strcmp(argv[2], "small") == 0;           /* the suite version: no alteration sweep */
 	static const size_t klens[2][4] = {{32, 24, 48, 64}, {17, 25, 33, 0}};
-	static const size_t iters[] = {10000, 10001, 12345};
+	/* the minimum iteration count 10000 (its code 02 02 27 10 can only be LOWERED by most alterations) and counts above */
+	static const size_t iters[2][4] = {{10000, 10000, 10001, 10000}, {10000, 10001, 12345, 0}};
+	long shard = argc > 3 ? atol(argv[3]) : -1, cont = -1;      /* shard = index of the container to do (all if absent) */
 	int k; size_t li, nfull = 0;
 	vxSeed(vxEnvSeed());
 	for (k = 0; k < 2; ++k) for (li = 0; li < (small ? 1u : 4u) && klens[k][li]; ++li)
 	{
 		const char* kind = k ? "share" : "priv"; wrap_f W = k ? bpkiShareWrap : bpkiPrivkeyWrap; unwrap_f U = k ? bpkiShareUnwrap : bpkiPrivkeyUnwrap;
-		size_t kl = klens[k][li], plen = 1 + vxRandN(12), iter = iters[(li + (size_t)k) % 3], elen = 0, olen = 0, pos, e2 = 0;
+		size_t kl = klens[k][li], plen = 1 + vxRandN(12), iter = iters[k][li], elen = 0, olen = 0, pos, e2 = 0;
 		octet key[64], pwd[16], pwd2[16], salt[8], out[64]; octet* epki; err_t rc; int full;
 		vxRandBuf(key, kl); if (k) key[0] = (octet)(1 + vxRandN(16));
 		vxRandBuf(pwd, plen); vxRandBuf(salt, 8);
+		if (++cont, shard >= 0 && cont != shard) continue;
 		full = thorough && iter == 10000 && nfull < 2 ? (++nfull, 1) : 0;
 		rc = W(0, &elen, key, kl, pwd, plen, salt, iter);
 		if (rc != ERR_OK) { bpkiLine("bpkiW", kind, key, kl, pwd, plen, salt, iter, 0, 0, rc, 0, 0, "len", 0, 0, 0); continue; }
@@ -777,16 +783,26 @@ int bpkiMain(int argc, char** argv)
 			rc = U(out, &olen, epki, elen, pwd2, p2);
 			bpkiLine("bpkiU", kind, key, kl, pwd2, p2, salt, iter, epki, elen, rc, out, rc == ERR_OK ? olen : 0, "wrongpwd", 0, 0, 0);
 		}
-		/* every single-octet alteration of the container (quick: one key length per kind) */
-		if ((thorough || li == 0) && !small)
+		/* every single-octet alteration of the container, several ways per position: xor 0x01, 0x20, 0x80, set to 0x00,
+		   set to 0xFF (and a seeded mask in the thorough tier); an alteration that leaves the octet as it was is skipped */
+		g_bpki_orig = epki; g_bpki_orig_len = elen;
+		if (!small)
 			for (pos = 0; pos < elen; ++pos)
 			{
-				int mask = 1 << vxRandN(8); octet* x = (octet*)xalloc(elen);
-				memcpy(x, epki, elen); x[pos] ^= (octet)mask;
-				memset(out, 0, sizeof out); olen = 0;
-				rc = U(out, &olen, x, elen, pwd, plen);
-				bpkiLine("bpkiU", kind, key, kl, pwd, plen, salt, 0, x, elen, rc, out, rc == ERR_OK ? olen : 0, "altered", (long)pos + 1, mask, 0);
-				free(x);
+				int way, ways = thorough ? 6 : 5;
+				for (way = 0; way < ways; ++way)
+				{
+					octet nv = way == 0 ? epki[pos] ^ 0x01 : way == 1 ? epki[pos] ^ 0x20 : way == 2 ? epki[pos] ^ 0x80 :
+						way == 3 ? 0x00 : way == 4 ? 0xFF : (octet)(epki[pos] ^ (1 << vxRandN(8)));
+					octet* x;
+					if (nv == epki[pos] || (way >= 3 && (nv == (epki[pos] ^ 0x01) || nv == (epki[pos] ^ 0x20) || nv == (epki[pos] ^ 0x80)))) continue;
+					x = (octet*)xalloc(elen);
+					memcpy(x, epki, elen); x[pos] = nv;
+					memset(out, 0, sizeof out); olen = 0;
+					rc = U(out, &olen, x, elen, pwd, plen);
+					bpkiLine("bpkiU", kind, key, kl, pwd, plen, salt, 0, x, elen, rc, out, rc == ERR_OK ? olen : 0, "altered", (long)pos + 1, nv ^ epki[pos], 0);
+					free(x);
+				}
 			}
 		/* truncated / extended container */
 		rc = U(out, &olen, epki, elen - 1, pwd, plen);
@@ -794,6 +810,7 @@ int bpkiMain(int argc, char** argv)
 		free(epki);
 	}
 	/* refusals at the entry: iteration count below 10000, key lengths outside the lists */
+	if (shard <= 0)
 	{
 		octet key[64], pwd[4] = {1, 2, 3, 4}, salt[8] = {0}; size_t elen = 0; err_t rc;
 		vxRandBuf(key, 64); key[0] = 3;
